@@ -155,6 +155,12 @@ def check(ctx):
                         break
                 meth = parent_txt.func.attr if parent_txt is not None and isinstance(parent_txt.func, ast.Attribute) else "?"
                 uses_sel = parent_txt is not None and any(isinstance(y, ast.Attribute) and dotted(y) == "cell.connection.selector" for a_ in parent_txt.args for y in ast.walk(a_))
+                if parent_txt is None:
+                    # not a data read: e.g. `monitors[k].reducer.interpolate` handed to select() as the interpolation rule
+                    chain = [y for y in ast.walk(loop) if isinstance(y, ast.Attribute) and any(z is rd for z in ast.walk(y.value))]
+                    if any(y.attr == "interpolate" for y in chain):
+                        npairs -= 1
+                        continue
                 cond = [(ast.unparse(n.test), lab) for n, lab in stack]
                 if len(opts) == 2:
                     in_delayed = ("state.delayed and cell.connection.delayedby", "T") in cond
